@@ -26,8 +26,13 @@ def load_findings(pid):
     return [f for f in data.get("findings", []) if pid in f.get("properties", [f.get("property")])]
 
 
+CURRENT = None      # the Check of this process (main_wrap reports its violations even if a later machinery step fails)
+
+
 class Check:
     def __init__(self, pid, tier, seed, level="model_checking"):
+        global CURRENT
+        CURRENT = self
         self.pid = pid
         self.tier = tier
         self.seed = seed
@@ -194,6 +199,13 @@ def main_wrap(fn):
     try:
         rc = fn()
     except MachineryError as ex:
-        print("MACHINERY-FAILURE:", ex, file=sys.stderr)
-        rc = 2
+        if CURRENT is not None and CURRENT.violations:
+            # violations were already established on recorded executions; a later machinery step (typically: no accepted trace
+            # left to build the negative controls from) must not turn them into "machinery failure"
+            CURRENT.notes.append("machinery step failed after violations had been found: " + str(ex)[:300])
+            print("NOTE: " + str(ex).splitlines()[0][:200] + " (reported after the violations below)", file=sys.stderr)
+            rc = CURRENT.finish()
+        else:
+            print("MACHINERY-FAILURE:", ex, file=sys.stderr)
+            rc = 2
     sys.exit(rc)
